@@ -21,7 +21,7 @@ pub type NodeIndex<Ix = DefaultIx> = Ix;
 
 //@ item src/adj.rs | - | struct EdgeIndex
 /// Adjacency list edge index type, a pair of integers.
-#[derive(Copy, Clone)]
+#[derive(Copy, Clone, PartialEq, Eq)]
 pub struct EdgeIndex<Ix = DefaultIx>
 where
     Ix: IndexType,
